@@ -98,8 +98,13 @@ def run(tier, seed):
     rep.transitions += sub.transitions
     rep.extra["tlc_runs"] += sub.extra.get("tlc_runs", [])
     rep.extra["inside_component_startup"] = {k: v for k, v in sub.extra.items() if k != "tlc_runs"} | {"executions": sub.traces_validated}
+    # one decorated coroutine function called concurrently from tasks in two contexts, with lookups that really suspend (Race.tla)
+    from .. import race
+    tv = rep.traces_validated
+    race.inject_check(PROP, tier, seed, rep, 600 if tier == "quick" else 20000)
+    extra_traces = rep.traces_validated - tv
     fx = ctxreplay._fx()
-    rep.traces_validated = total["tours"] + sub.traces_validated
+    rep.traces_validated = total["tours"] + sub.traces_validated + extra_traces
     rep.evaluations = total["edges"] + total["loops"] + total["prefix_steps"] + len(dec)
     rep.distinct_nontrivial = ninj
     rep.exhaustive = total.get("unexamined_ops", 0) == 0
@@ -119,6 +124,14 @@ def replay(scenario):
         dec = [c for c in decoration_cases() if c["row"] == scenario["decoration"]]
         verdicts, _, _ = core.validate_traces("Trace_C19", dec)
         return [core.Violation(PROP, v["why"], f"C19:{v['why']}", scenario) for v in verdicts.values() if not v["ok"]]
+    if scenario.get("kind") == "race-inject":
+        from .. import race
+        t = race.execute(dict(scenario["case"], id="replay"))
+        t2 = race.execute(dict(scenario["case"], id="replay-exp", inject=False))
+        verdicts, _, _ = core.validate_traces("Trace_Race", [t, t2])
+        vi, ve = verdicts["replay"], verdicts["replay-exp"]
+        bad_i = (vi.get("whys") or []) or any(e["ev"] == "crash" for e in t["events"])
+        return [core.Violation(PROP, "decorated lookups racing in two contexts differ from the explicit lookups", "C19:race", scenario)] if bad_i and not ve.get("whys") else []
     if "startup" in scenario:
         return startup.replay_case(PROP, "Trace_C06", scenario["startup"])
     rep = run("quick", scenario.get("seed", 1))
